@@ -1286,13 +1286,14 @@ class Summarizer:
 
     # ------------------------------------------------------------------ calls
     def exec_call(self, st, fr, term):
-        callee = fr.inst['callmap'].get(fr.bb)
+        callee = fr.inst['callmap'].get(fr.bb) if fr.promoted_of is None else None    # the records are per block of the function body, not of its promoted constants
         args = [self.eval_operand(st, fr, a) for a in term['args']]
         dest = self.resolve_place(st, fr, term['dest'])
         dest_ty = self.place_type(fr, term['dest'])
         target = term['target']
-        if callee is None and isinstance(term.get('func'), dict) and 'fn' in (term['func'].get('const') or {}) and fr.def_id < 0:
-            # initialiser of a constant (no resolution records there): a direct call of a named function, modelled or not
+        if callee is None and isinstance(term.get('func'), dict) and 'fn' in (term['func'].get('const') or {}) and (fr.def_id < 0 or fr.promoted_of is not None):
+            # initialiser of a constant / promoted constant (no resolution records there): a direct call of a named
+            # function, modelled or not
             callee = {'path': term['func']['const']['fn']}
         if callee is None:
             raise Unsupported('call without callee record at %s' % self.where(fr, term))
